@@ -210,7 +210,10 @@ func TestVerifWorker(t *testing.T) {
 		res.Outcome = c.outcome
 		res.State = c.state
 		if c.sim != nil {
-			res.Hash = fmt.Sprintf("%016x", c.sim.Hash())
+			if !c.sim.PassThrough() {
+				// pass-through (-race) runs have no schedule trace: they are told apart by their plan (state)
+				res.Hash = fmt.Sprintf("%016x", c.sim.Hash())
+			}
 			res.Steps = c.sim.Stats.Steps
 			res.Preempt = c.sim.Stats.Preemptions
 			res.SimNs = c.sim.Stats.SimNanos
